@@ -38,6 +38,9 @@ pub fn child(args: &[String]) {
     let long = args.get(3).map(|s| s == "long").unwrap_or(false);
     let pattern = if aligned {
         "{(<{h({l})}{h({t})}>):>12}|{m}>{n}"
+    } else if long {
+        // (the second highlight group has a minimum width only, which the two-character target fills exactly)
+        "<{h({l}):.3}{h({t}):2}|{m}>{n}"
     } else if nonl {
         "<{h({l}):.3}{h({t}):2.2}|{m}>"
     } else {
